@@ -16,7 +16,7 @@ CHECKS = {
 }
 
 
-READY = {'C16'}
+READY = {'C09', 'C16'}
 
 
 def main():
